@@ -18,7 +18,16 @@ def key_of(ind):
 
 
 def better(maximize):
-    return (lambda a, b: a > b) if maximize else (lambda a, b: a < b)
+    """Strictly better in the problem's direction; NaN (undefined objective) is worse than any number."""
+
+    def btr(a, b):
+        if a != a:
+            return False
+        if b != b:
+            return True
+        return a > b if maximize else a < b
+
+    return btr
 
 
 # ======================================================================================
@@ -586,11 +595,17 @@ class C04Monitor(Monitor):
         if self.seq and btr(self.seq[-1], bi.fitness):
             x.violate("C04/tree-best-got-worse", f"reported best went from {self.seq[-1]} to {bi.fitness}")
         self.seq.append(bi.fitness)
-        if not has_loc and len(w.log) and not w.desc.get("levelshift"):
-            obs = (max if mx else min)(w.log.v)
+        vals = [v for v in w.log.v if v == v]
+        if bi.fitness != bi.fitness and vals:
+            x.violate("C04/tree-best-is-nan", f"tree reports a NaN best although the objective returned numbers (e.g. {vals[0]})")
+        elif not has_loc and vals and not w.desc.get("levelshift"):
+            obs = (max if mx else min)(vals)
+            if any(v != v for v in w.log.v):
+                x.flag("run with NaN objective values")
             if obs != bi.fitness:
+                nanrun = any(v != v for v in w.log.v)
                 x.violate(
-                    "C04/best-not-best-observed",
+                    "C04/best-not-best-observed" + (":objective-returned-nan:" + "+".join(sorted(set(x.desc["engines"]))) if nanrun else ""),
                     f"reported best {bi.fitness} != best objective value ever observed {obs}",
                     engines=x.desc["engines"],
                 )
